@@ -449,10 +449,12 @@ func (w *World) QueryRule(rule Rule, syms *SymbolTable) *FactSet {
 }
 
 func (w *World) Clone() *World {
-	newFacts := new(FactSet)
-	*newFacts = *w.facts
+	// the clone gets its own backing array: appending to one world must not
+	// write into the spare capacity another world appends to
+	newFacts := make(FactSet, len(*w.facts))
+	copy(newFacts, *w.facts)
 	return &World{
-		facts:     newFacts,
+		facts:     &newFacts,
 		rules:     append([]Rule{}, w.rules...),
 		runLimits: w.runLimits,
 	}
